@@ -135,6 +135,9 @@ type Gen struct {
 	// became of it (a proposal may pass the vote and still be discarded as a whole when a later
 	// message of it fails): decisions and whitelist changes are biased towards them as well
 	ghostSigners []int
+	// ghostReg: the WRKChain/BEACON parameters named by the latest parameter-update proposal of each
+	// module, whatever became of it; some transactions offer the fee *those* would ask for
+	ghostReg map[string]RegParams
 }
 
 func (g *Gen) addGhost(kind string, id uint64, actor int) {
@@ -233,6 +236,9 @@ func NewRun(prop string, seed int64, tier string) (*Trace, *Gen) {
 		if g.pct(50) {
 			k.Whitelist = append(k.Whitelist, i)
 		}
+	}
+	if (prop == "C14" || prop == "C05" || prop == "C04") && g.pct(20) {
+		k.WhitelistGov = true
 	}
 	lim := [][2]uint64{{1, 1}, {1, 3}, {2, 5}, {3, 9}, {5, 9}, {2, 2}, {100, 300}, {50000, 600000}}
 	fees := []uint64{1, 10, 1000, 1000000, 1000000000000}
@@ -615,6 +621,10 @@ func signerOf(m *MsgSpec) int { return m.A }
 // feeFor computes the module fee the chain's admission rule asks for, from the model's view of
 // the current parameters (used by the generator only; the C06 oracle has its own computation).
 func (g *Gen) feeFor(w *World, msgs []MsgSpec) *big.Int {
+	return g.feeWith(w.M.Wrk.P, w.M.Bcn.P, msgs)
+}
+
+func (g *Gen) feeWith(wp, bp RegParams, msgs []MsgSpec) *big.Int {
 	sum := new(big.Int)
 	var walk func(ms []MsgSpec)
 	walk = func(ms []MsgSpec) {
@@ -622,9 +632,9 @@ func (g *Gen) feeFor(w *World, msgs []MsgSpec) *big.Int {
 			m := &ms[i]
 			var p *RegParams
 			if strings.HasPrefix(m.T, "wrk.") {
-				p = &w.M.Wrk.P
+				p = &wp
 			} else if strings.HasPrefix(m.T, "bcn.") {
-				p = &w.M.Bcn.P
+				p = &bp
 			}
 			if p != nil {
 				switch {
@@ -669,7 +679,21 @@ func (g *Gen) setFee(w *World, ts *TxSpec) {
 	if g.Prop == "C06" || g.Prop == "C16" {
 		perturb = 45
 	}
-	if g.pct(perturb) {
+	if len(g.ghostReg) > 0 && g.pct(perturb/2+4) {
+		// the exact fee under the parameters of the latest proposal (adopted, pending, rejected or
+		// discarded): right only if those are the parameters in force
+		wp, bp := w.M.Wrk.P, w.M.Bcn.P
+		if x, ok := g.ghostReg["wrk"]; ok {
+			wp = x
+		}
+		if x, ok := g.ghostReg["bcn"]; ok {
+			bp = x
+		}
+		if gf := g.feeWith(wp, bp, ts.Msgs); gf.Sign() > 0 {
+			fee = gf
+			w.Fault("fee.per_proposed_params")
+		}
+	} else if g.pct(perturb) {
 		switch g.R.Intn(6) {
 		case 0:
 			fee.Sub(fee, big.NewInt(1))
@@ -1190,6 +1214,10 @@ func (g *Gen) paramMsg(w *World) MsgSpec {
 				p.Denom = pick(g.R, []string{"", "  ", "9", "x"})
 			}
 		}
+		if g.ghostReg == nil {
+			g.ghostReg = map[string]RegParams{}
+		}
+		g.ghostReg[mod] = RegParams{p.FeeReg, p.FeeRec, p.FeePur, p.Denom, p.DefLimit, p.MaxLimit}
 		return MsgSpec{T: mod + ".params", A: auth, P: p}
 	default:
 		v := pick(g.R, []string{"0", "0.000000000000000001", "0.01", "0.03", "0.5", "0.999999999999999999", "1"})
@@ -1205,10 +1233,10 @@ func (g *Gen) govTx(w *World) TxSpec {
 	if g.pct(10) {
 		inner = append(inner, g.paramMsg(w))
 	}
-	if g.pct(8) {
+	if g.pct(8) || w.T.Knobs.WhitelistGov && g.pct(35) {
 		// governance executing an arbitrary custom message with itself as the named party
 		m := g.customMsg(w)
-		if w.M.Ent.Whitelist[ModuleAddr("gov").String()] && g.pct(60) {
+		if w.M.Ent.Whitelist[ModuleAddr("gov").String()] && g.pct(75) {
 			m = MsgSpec{T: "ent.raise", Amt: u64s(uint64(1 + g.R.Intn(1000000))), Denom: w.M.Ent.Denom}
 		}
 		m.A = AddrGov
